@@ -130,9 +130,9 @@ def spaced_rule(rnd, spec):
 
 def run(ctx):
     fl = import_library()
-    nrule = ctx.scale(3000, 200_000)
-    nfll = ctx.scale(500, 30_000)
-    nclass = ctx.scale(300, 20_000)
+    nrule = ctx.scale(3000, 1_000_000)
+    nfll = ctx.scale(500, 100_000)
+    nclass = ctx.scale(300, 60_000)
     ctx.rule = (
         f"every Rule.parse/load, Antecedent.load, Consequent.load, RuleBlock.load_rules and FllImporter.from_string exit observed. Workload: {nrule} "
         f"mutants of valid rules and {nfll} mutants of valid FLL documents (token deletion, duplication, substitution of keywords/names/numbers/"
